@@ -64,6 +64,14 @@ pub fn c06_programs(thorough: bool) -> Vec<Program> {
 	small.push(MAct::Scoped { t: 1, write: true, try_: false, lent: false, panic: true });
 	let mut out = vec![];
 	out.push(program("C06-menu", specs.clone(), vec![MenuThread { actions: full.clone(), reacquire: false }, MenuThread { actions: if thorough { full.clone() } else { small }, reacquire: false }], Policy::RP));
+	// collections without any lock: the key discipline must not depend on there being something to lock
+	let empties = vec![Spec::Coll(Kind::Retry, vec![]), Spec::Coll(Kind::Boxed, vec![]), Spec::Coll(Kind::Ref, vec![]), Spec::Native(Native::OwnedSlice(0)), Spec::M(0)];
+	let all_e: Vec<(usize, bool)> = empties.iter().enumerate().map(|(i, s)| (i, s.sharable())).collect();
+	let mut full_e = vec![MAct::Get, MAct::DropKey, MAct::Nop, MAct::Unlock, MAct::DropGuard, MAct::ForgetGuard, MAct::PanicWithGuard];
+	full_e.extend(acq_actions(&all_e, true, true, true));
+	let mut small_e = vec![MAct::Get, MAct::DropKey, MAct::Unlock, MAct::DropGuard];
+	small_e.extend(acq_actions(&[(4, false)], false, false, true));
+	out.push(program("C06-menu-empty", empties, vec![MenuThread { actions: full_e, reacquire: false }, MenuThread { actions: small_e, reacquire: false }], Policy::RP));
 	out
 }
 
@@ -174,6 +182,7 @@ pub fn check_c06(tier: &str) -> ! {
 	let _ = tier;
 	// "keys of different threads are independent": no key-carrying value may cross to another thread at all
 	crate::corpus::run_route("send-", "C06", &mut rep);
+	crate::corpus::run_route("share-key-", "C06", &mut rep);
 	rep.set("rule", format!("{}; C06 oracle: after every step ThreadKey::get() (dropped again when Some) succeeds iff the per-thread key model says Free; inside every closure it fails; compile-time clause: every public key-carrying type (key, guards, key-returning errors, over raw locks with sendable guards too) is rejected as Send by rustc, each next to a compiling twin", menu_rule()));
 	rep.finish()
 }
@@ -192,6 +201,8 @@ pub fn check_c03(tier: &str) -> ! {
 		v.prop = "C03".into();
 		rep.violation(v);
 	}
+	// "scoped call returned or unwound": also when it unwinds inside a destructor during an earlier unwind
+	crate::seqchecks::nested_unwind_sweep(&mut rep, tier == "thorough", "C03");
 	// (a) at the first raw op of every acquisition in every explored concurrent execution
 	let mut crep = Report::new("C03", tier, "model_checking");
 	crate::conc::core_families(&mut crep, tier == "thorough");
